@@ -88,6 +88,11 @@ structure PyWit where
   stack : List Bytes
 deriving Repr, Inhabited
 
+/-- `xs[i] = x` for an index that `listGet` accepted (Python counts a negative index from the end) -/
+def listSet {α : Type} (xs : List α) (i : Int) (x : α) : List α :=
+  let j : Int := if i < 0 then i + xs.length else i
+  xs.set j.toNat x
+
 /-- Python `xs[i]` on a list (a negative index counts from the end) -/
 def listGet {α : Type} (xs : List α) (i : Int) : Except PyErr α :=
   let j : Int := if i < 0 then i + xs.length else i
